@@ -364,6 +364,12 @@ bool Directory::unlink(const String& dir, bool recursive)
     }
     const char* const str = dent->d_name;
     bool isDir = dent->d_type == DT_DIR;
+    if(dent->d_type == DT_UNKNOWN)
+    { // not every file system reports the type; lstat does not follow a symbolic link
+      struct stat buf;
+      if(lstat(prefix + String(str, String::length(str)), &buf) == 0 && S_ISDIR(buf.st_mode))
+        isDir = true;
+    }
     if(isDir && *str == '.' && (str[1] == '\0' || (str[1] == '.' && str[2] == '\0')))
       continue;
     if(isDir)
